@@ -53,3 +53,24 @@ Print Assumptions C03_best_egress_is_code.
 Theorem C03_reverse_step_is_code : forall d p k st c, rev_step_code d p k st c = rev_step d p k false st c.
 Proof. exact rev_step_tie. Qed.
 Print Assumptions C03_reverse_step_is_code.
+
+(* the success case of C03_decl in full: the reported arrival is attained by an admissible journey AND is the
+   minimum over all admissible journeys (forward-scan soundness + completeness, FwdOpt.v; the reverse pass cannot
+   arrive later than the forward optimum, ValidAdm.calc_single_fwd_best) *)
+From TrV Require Import Proofs.C03Ok.
+Theorem C03_success_is_optimal : forall d s p acc egr r used,
+  opt_domain d s p acc egr -> pos_hops_b d = true -> q_fwd p = true -> q_maxfw p <= 0 ->
+  route_answer d s p acc egr = Ok (r, used) ->
+  (exists rides, admissible_fwd d s p acc egr rides (rt_arr r)) /\
+  (forall rides t, admissible_fwd d s p acc egr rides t -> rt_arr r <= t).
+Proof. exact C03_ok_case. Qed.
+Print Assumptions C03_success_is_optimal.
+
+(* ---- THE FULL DECLARATIVE STATEMENT (Optimal.v), on the property's own domain (positive hops, first-waiting cap off —
+   NO restriction to uniform minimum waiting): success exactly when an admissible journey exists, and then the arrival
+   is the minimum over all admissible journeys.  Needs the repair of defect D12 (reverse_calculation.cpp's access break),
+   found by this very proof attempt: on the unrepaired code the statement is false (corpus/l2/d12_mixed_wait_break.case). ---- *)
+From TrV Require Import Proofs.RevOptCompose.
+Theorem C03_full_declarative : C03_decl_statement.
+Proof. exact C03_decl_proved. Qed.
+Print Assumptions C03_full_declarative.
